@@ -114,6 +114,13 @@ def handle (j : Json) : IO Unit := do
   let kind := jstr (jget j "kind")
   let impl := jget j "impl"
   match kind with
+  | "shared" =>
+    -- one translator, many clients at once, after some clients died mid-stream: what a client receives is what it
+    -- received when it was alone (the translation of a stream is a function of that stream: `transform` has no other input)
+    let impl := jget j "impl"
+    let mm := jnat (jget impl "mismatches")
+    emit case (mm == 0) (mm == 0) s!"shared.streams{jnat (jget j "streams")}" (if mm == 0 then "" else "translation-depends-on-other-clients-streams")
+      (if mm == 0 then "" else s!"{mm} of {jnat (jget j "streams") * jnat (jget j "rounds")} concurrent translations differ from the translation of the same stream alone; first: {jstr (jget impl "first")}")
   | "e2e" =>
     -- the assembled system: whatever the size of the completion, buffered or streamed, the client holds a complete
     -- Anthropic message whose text is the backend's (C13_text_lossless, C13_total, C13_stream_eq_buffered)
